@@ -28,6 +28,10 @@ mod c09;
 mod c15;
 mod c15_worker;
 mod c11;
+mod c04;
+mod c18;
+mod c19;
+mod c16;
 mod lean;
 mod report;
 mod rng;
@@ -101,6 +105,10 @@ fn main() {
                 "C09" => c09::replay(&f["input"]),
                 "C15" => c15::replay(&f["input"]),
                 "C11" => c11::replay(&f["input"]),
+                "C04" => c04::replay(&f["input"]),
+                "C18" => c18::replay(&f["input"]),
+                "C19" => c19::replay(&f["input"]),
+                "C16" => c16::replay(&f["input"]),
                 _ => "replay not implemented for this property".to_string(),
             };
             println!("input: {}\n{}", f["input"], out);
@@ -147,6 +155,10 @@ fn main() {
         "C09" => c09::run(&tier, seed, widen),
         "C15" => c15::run(&tier, seed, widen),
         "C11" => c11::run(&tier, seed, widen),
+        "C04" => c04::run(&tier, seed, widen),
+        "C18" => c18::run(&tier, seed, widen),
+        "C19" => c19::run(&tier, seed, widen),
+        "C16" => c16::run(&tier, seed, widen),
         _ => {
             eprintln!("unknown property {prop}");
             std::process::exit(2);
